@@ -48,7 +48,14 @@ func genC08(r *rng.R, tier string, steer bool, idx int) *trace.Trace {
 	if tier == "thorough" && r.Chance(0.1) {
 		size = rng.Pick(r, []int{262144, 1 << 20})
 	}
-	t.Ops = []trace.Op{{Op: "filter_payload", Filters: fs, Len: size, Seed: r.Uint64() % 100000, Mode: rng.Pick(r, []string{"rand", "zero", "ramp", "repeat", "rand"})}}
+	mode := rng.Pick(r, []string{"rand", "zero", "ramp", "repeat", "rand"})
+	if r.Chance(0.002) {
+		// extreme compression ratios: megabytes of one byte value (deflate stores
+		// them in about a thousandth of their size)
+		size = rng.Pick(r, []int{1 << 20, 2 << 20, 4<<20 + 3})
+		mode = "zero"
+	}
+	t.Ops = []trace.Op{{Op: "filter_payload", Filters: fs, Len: size, Seed: r.Uint64() % 100000, Mode: mode}}
 	// (i) a public-API dataset with the filters the options allow
 	if r.Chance(0.5) {
 		var api []string
